@@ -90,6 +90,9 @@ structure Cfg where
   vecStaged : Bool
   /-- `GraphEngine::compact` reads `tree.root()` AFTER the insert loops of the property sinking (code fact) -/
   rootAfterInserts : Bool
+  /-- the sinking loops of `compact` replace the store entry of a key (replace_property_entry) instead of
+      adding one more entry per compaction (code fact) -/
+  sinkReplaces : Bool
   /-- environment, not code: does the root page of the property tree change (root split — `BTree::insert`
       allocates a new root page and keeps the old one as its left half) while a compaction inserts `k`
       entries into a tree of `n` entries?  The theorems hold for EVERY such oracle. -/
@@ -99,7 +102,7 @@ structure Cfg where
 def Cfg.current : Cfg :=
   { commitOrder := Generated.commitOrder, csrGuard := Generated.csrIncomingGuard,
     compactOwnLast := Generated.compactOwnEdgeTombstonesLast, vecStaged := Generated.setVectorStaged,
-    rootAfterInserts := Generated.compactReadsRootAfterInserts,
+    rootAfterInserts := Generated.compactReadsRootAfterInserts, sinkReplaces := Generated.compactSinkReplaces,
     rootMoves := fun n k => (n + k) / 390 != n / 390 }
 
 /-- the pinned tree (before any `fix:`) -/
@@ -108,6 +111,7 @@ def Cfg.pinned : Cfg :=
                     .tombstoneEdge, .setNodeProperty, .removeNodeProperty, .setEdgeProperty,
                     .removeEdgeProperty],
     csrGuard := false, compactOwnLast := false, vecStaged := false, rootAfterInserts := true,
+    sinkReplaces := false,
     rootMoves := fun n k => (n + k) / 390 != n / 390 }
 
 /-- what survives a drop of the engine (no crash): the log, the node table, the segment pages, the
@@ -284,7 +288,9 @@ def compact (c : Cfg) (s : Engine) : Engine :=
     -- `current_root = tree.root()`: where the source reads it (regenerated flag)
     let root := if sunk.isEmpty then s.propsRoot else if c.rootAfterInserts then after else before
     let sys := s.nextTxid
-    { s with segStore := seg :: s.segStore, store := sunk ++ s.store,
+    -- replace_property_entry: every entry of a sunk key is deleted before the new one is inserted
+    let kept := if c.sinkReplaces then s.store.filter (fun p => !sunk.any (·.1 == p.1)) else s.store
+    { s with segStore := seg :: s.segStore, store := sunk ++ kept,
              storeRoot := if sunk.isEmpty then s.storeRoot else after,
              wal := s.wal ++ [.beginTx sys, .manifestSwitch epoch (segs.map (·.id)) root,
                               .checkpoint upTo epoch root, .commitTx sys],
